@@ -47,6 +47,14 @@ Definition dec_first_row (x : sx) : option (Z * Z) :=
   | _ => None
   end.
 
+Definition lex_all_tokens (x : sx) : option (list token) :=
+  let starts := sx_zs (sx_nth x 1) in
+  let conts := sx_zs (sx_nth x 2) in
+  match lex (fun c => memz c starts) (fun c => memz c conts) true true (sx_zs (sx_nth x 3)) with
+  | Ok items => Some (map item_token items)      (* also the tokens carried by lexical errors *)
+  | _ => None
+  end.
+
 Definition lex_tokens (x : sx) : option (list token) :=
   let starts := sx_zs (sx_nth x 1) in
   let conts := sx_zs (sx_nth x 2) in
@@ -82,7 +90,7 @@ Definition run (x : sx) : sx :=
     SZ (judge (sx_zs (sx_nth x 1)) (sx_to_bool (sx_nth x 2)) (dec_loc (sx_nth x 3)) (dec_exp (sx_nth x 4))
               (dec_first_row (sx_nth x 5)))
   else
-    match lex_tokens x with
+    match lex_all_tokens x with
     | Some ts => sx_bool (known_c24 (normalize_newline (sx_zs (sx_nth x 3))) ts (dec_loc (sx_nth x 4)))
     | None => SZ 0
     end.
